@@ -48,9 +48,13 @@ RefOk(r) == IsInt(r) /\ r.m = "x" => r.ref = Full(r)
 Clauses(r) == IF IsCrash(r) THEN {"crash"}
               ELSE IF Exact14(r) THEN ToStrClauses(Full(r), r.n, r.r, Off(r), Before(r), After(r))
                                       \cup (IF RefOk(r) THEN {} ELSE {"refmodel"})
+              ELSE IF r.a = "copyfail"       \* a copy that fails: only "nothing outside the buffer is written" is demanded
+                   THEN (IF BeyondUnchanged(r.n, Off(r), Before(r), After(r)) THEN {} ELSE {"beyond"})
+                        \cup (IF FrontUnchanged(Off(r), Before(r), After(r)) THEN {} ELSE {"front"})
+                        \cup (IF r.ok = 1 THEN {} ELSE {"notcalled"})
               ELSE BufferClauses(r.a, Full(r), r.n, r.r, Off(r), Before(r), After(r))
                    \cup (IF r.ok = 1 THEN {} ELSE {"notcalled"})
-Notes(r) == IF IsCrash(r) \/ Exact14(r) \/ Complete(Full(r), r.n, r.r) THEN {} ELSE {"incomplete"}
+Notes(r) == IF IsCrash(r) \/ Exact14(r) \/ r.a = "copyfail" \/ Complete(Full(r), r.n, r.r) THEN {} ELSE {"incomplete"}
 
 Init == l \in 1..Len(T) /\ phase = 0 /\ diff = {} /\ note = {}
 Next == /\ phase = 0 /\ phase' = 1 /\ l' = l
